@@ -1,15 +1,16 @@
 #!/bin/bash
-# confirm_seed.sh <PROPERTY> <N> [--suite]
+# confirm_seed.sh <PROPERTY> <N> [--suite|-] [TAG]   (TAG e.g. r2: second round, source /tmp/wt-out/<P>r2, stored as seeded/<P>-r2-<N>)
 # Confirms an independently produced breaking change (/tmp/wt-out/<P>/patch<N>.diff + demo<N>.py):
 #   demo passes on a clean scratch worktree of /repo HEAD, fails with the patch applied,
 #   (with --suite) the pinned doctest suite keeps every baseline pass,
 #   then runs this framework's checks for <P> against the patched scratch tree (never /repo).
 # Writes /verif/seeded/<P>-<N>/{patch.diff,demo.py,meta.json}. The scratch worktree is removed.
 set -u
-P=$1; N=$2; SUITE=${3:-}
-SRC=/tmp/wt-out/$P
-WT=/tmp/confirm/$P-$N
-OUT=/verif/seeded/$P-$N
+P=$1; N=$2; SUITE=${3:-}; TAG=${4:-}
+SRC=/tmp/wt-out/$P$TAG
+if [ -n "$TAG" ]; then ID=$P-$TAG-$N; else ID=$P-$N; fi
+WT=/tmp/confirm/$ID
+OUT=/verif/seeded/$ID
 mkdir -p /tmp/confirm "$OUT"
 git -C /repo worktree remove --force "$WT" 2>/dev/null
 git -C /repo worktree add --detach "$WT" HEAD -q || exit 3
@@ -22,11 +23,11 @@ timeout 900 /venv/bin/python _demo.py > "$OUT/demo_patched.log" 2>&1; PATCHED=$?
 SUITE_OK=null; LOST="[]"
 if [ "$SUITE" = "--suite" ] && [ $APPLY = 0 ]; then
   rm -f _demo.py
-  timeout 3000 /venv/bin/python -m pytest -ra -q -p no:cacheprovider --timeout=900 --continue-on-collection-errors --junitxml=/tmp/confirm/$P-$N.xml > /tmp/confirm/$P-$N.log 2>&1
+  timeout 3000 /venv/bin/python -m pytest -ra -q -p no:cacheprovider --timeout=900 --continue-on-collection-errors --junitxml=/tmp/confirm/$ID.xml > /tmp/confirm/$ID.log 2>&1
   LOST=$(python3 - <<PY
 import json,subprocess
 base=set(json.load(open('/verif/tools/baseline_pass.json')))
-now=set(json.loads(subprocess.check_output(['python3','/verif/tools/junit_pass.py','/tmp/confirm/$P-$N.xml'])))
+now=set(json.loads(subprocess.check_output(['python3','/verif/tools/junit_pass.py','/tmp/confirm/$ID.xml'])))
 print(json.dumps(sorted(base-now)))
 PY
 )
@@ -44,7 +45,7 @@ meta={"property":"$P","source":"independent sub-agent given only the property re
  "check_exit_on_patched_tree":$CODE,"check_output":"""$CHK"""[:3000],
  "ran":["demo on clean scratch worktree of /repo HEAD","demo with patch applied","pinned doctest suite with patch (when --suite)","python -m pennyverif check $P --root <patched scratch worktree>"]}
 try:
-    n=json.load(open("/verif/tools/seed_notes.json")).get("$P-$N")
+    n=json.load(open("/verif/tools/seed_notes.json")).get("$ID")
     if n: meta["needs_to_manifest"]=n["needs"]; meta["note"]=n["history"]
 except Exception: pass
 meta["breaks_property"]="$P"
